@@ -28,6 +28,8 @@ type pcase struct {
 	BLo  uint64 `json:"b_lo"`
 	BLen uint8  `json:"b_len"`
 	Str  string `json:"str,omitempty"`
+	// Cross: compare the IPv4 address AHi>>32 (prefix length ALen) with the IPv6 one that has the same numeric bits
+	Cross bool `json:"cross,omitempty"`
 }
 
 func width(v4 bool) int {
@@ -110,6 +112,19 @@ func band(v4 bool, l uint8) string {
 func isV4Mapped(hi, lo uint64) bool { return hi == 0 && lo>>32 == 0xffff }
 
 func check(r *vf.Run, c pcase) {
+	if c.Cross {
+		v := uint32(c.AHi >> 32)
+		a4, a6 := bnet.IPv4(v), bnet.IPv6(0, uint64(v))
+		p4, p6 := bnet.NewPfx(a4, c.ALen), bnet.NewPfx(a6, c.ALen)
+		r.Eval(2)
+		if a4.Equal(a6) || a6.Equal(a4) {
+			r.Violate(vf.Violation{Clause: "equal", Features: vf.F("family", "cross", "of", "address"), Detail: fmt.Sprintf("IP %s Equal %s = true: addresses of different families", a4.String(), a6.String()), Case: c})
+		}
+		if p4.Equal(&p6) || p6.Equal(&p4) {
+			r.Violate(vf.Violation{Clause: "equal", Features: vf.F("family", "cross", "of", "prefix"), Detail: fmt.Sprintf("prefix %s Equal %s = true: prefixes of different families", p4.String(), p6.String()), Case: c})
+		}
+		return
+	}
 	w := width(c.V4)
 	fam := "ipv6"
 	if c.V4 {
@@ -262,7 +277,7 @@ func flip(hi, lo uint64, k int) (uint64, uint64) {
 
 func main() {
 	vf.Main("C15", "exploration", func(r *vf.Run) {
-		r.Rule("every (lenA,lenB) in 0..32 squared and 0..128 squared x base address {0, all-ones, 3 PRNG, v4-mapped for v6} x second address = first with exactly bit k flipped, k in {1,min-1,min,min+1,31..34,63..66,95..98,127,128} within the width, plus identical addresses; plus PRNG pairs; reference = bit-by-bit 128-bit arithmetic. distinct_nontrivial = distinct (family,lenA,lenB,k) combinations where the flipped bit lies at or before min(lenA,lenB)+1, i.e. it decides containment/supernet")
+		r.Rule("every (lenA,lenB) in 0..32 squared and 0..128 squared x base address {0, all-ones, 3 PRNG, v4-mapped for v6} x second address = first with exactly bit k flipped, k in {1,min-1,min,min+1,31..34,63..66,95..98,127,128} within the width, plus identical addresses; plus PRNG pairs; plus equality of an IPv4 and an IPv6 address/prefix with the same numeric bits (must be false); reference = bit-by-bit 128-bit arithmetic. distinct_nontrivial = distinct (family,lenA,lenB,k) combinations where the flipped bit lies at or before min(lenA,lenB)+1, i.e. it decides containment/supernet")
 		r.Assume("Contains is judged as strict containment; equal-length pairs are not judged for Contains", "GetSupernet is judged only where the canonical prefixes differ before min(lenA,lenB) (the only case in which the trie calls it)")
 		if raw, ok := r.Replaying(); ok {
 			var c pcase
@@ -310,6 +325,18 @@ func main() {
 						}
 					}
 				}
+			}
+		}
+		// cross-family equality: an IPv4 address / prefix never equals the IPv6 one with the same numeric bits
+		// (0.0.0.0/0 vs ::/0, a.b.c.d vs ::a.b.c.d)
+		xvals := []uint32{0, 1, 0xffffffff, 0x0a000001, 0xc0000200}
+		for i := 0; i < 200; i++ {
+			xvals = append(xvals, rng.Uint32())
+		}
+		for _, v := range xvals {
+			for _, l := range []uint8{0, 1, 8, 24, 32} {
+				check(r, pcase{Cross: true, V4: true, AHi: uint64(v) << 32, ALen: l})
+				r.Count("cross_family_equality_checks", 1)
 			}
 		}
 		r.Exhaustive(true)
